@@ -437,7 +437,65 @@ def oracle(ctx: C.Ctx, cov: C.Coverage, falsy_bias: float = 0.35, n: Optional[in
         f = check_object(obj, {"seed": seed, "index": i, "depth": depth, "falsy_bias": falsy_bias}, CARRIERS[i % len(CARRIERS)])
         if f and f.sig not in sigs:
             sigs.add(f.sig); out.append(f)
+    for case, group in batches(seed, min(n or ctx.budget(240, 6000), 400), ctx.tier, falsy_bias):
+        f = check_batch(group, case, "json")
+        if f and f.sig not in sigs:
+            sigs.add(f.sig); out.append(f)
     return out
+
+
+def directed_store():
+    """several identifiables of each kind in ONE document: two template submodels and an instance one (with the same elements),
+    two shells, two concept descriptions"""
+    from basyx.aas import model
+    mk = lambda i, kind: model.Submodel(f"urn:vf:batch:sm{i}", [model.Property("p", model.datatypes.Int, i)], kind=kind,  # noqa: E731
+                                        administration=model.AdministrativeInformation(version="1", revision=str(i)))
+    sms = [mk(1, model.ModellingKind.TEMPLATE), mk(2, model.ModellingKind.TEMPLATE), mk(3, model.ModellingKind.INSTANCE), mk(4, model.ModellingKind.TEMPLATE)]
+    shells = [model.AssetAdministrationShell(model.AssetInformation(global_asset_id=f"urn:vf:batch:asset{i}"), f"urn:vf:batch:aas{i}",
+                                             submodel={model.ModelReference.from_referable(sm) for sm in sms[:i + 1]}) for i in (0, 1)]
+    cds = [model.ConceptDescription(f"urn:vf:batch:cd{i}", is_case_of={model.ExternalReference((model.Key(model.KeyTypes.GLOBAL_REFERENCE, f"urn:c{i}"),))})
+           for i in (0, 1)]
+    return sms + shells + cds
+
+
+def check_batch(objs, case: dict, fmt: str = "json") -> Optional[C.Failing]:
+    """(round 7) a store holds MANY objects: all of them in one document, written and read back, each compared by identifier - what
+    is written for one object must not depend on the others of the document"""
+    _quiet()
+    from basyx.aas import model
+    from vf import canon
+    want = {o.id: canon.canon(o) for o in objs}
+    try:
+        if fmt == "json":
+            got_objs = list(roundtrip_store(model.DictObjectStore(objs), "binary"))
+        else:
+            from basyx.aas.adapter.xml import write_aas_xml_file, read_aas_xml_file
+            buf = io.BytesIO(); write_aas_xml_file(buf, model.DictObjectStore(objs)); buf.seek(0)
+            got_objs = list(read_aas_xml_file(buf, failsafe=False))
+    except Exception as e:
+        return C.Failing(f"{fmt}:roundtrip:batch:raises:{type(e).__name__}", f"a store of {len(objs)} objects: {e!r}"[:300], case)
+    got = {o.id: canon.canon(o) for o in got_objs}
+    if sorted(got) != sorted(want):
+        return C.Failing(f"{fmt}:roundtrip:batch:identifiables", f"a store of {sorted(want)} is read back as {sorted(got)}", case)
+    for i, c in want.items():
+        d = canon.diff(c, got[i])
+        if d:
+            return C.Failing(f"{fmt}:roundtrip:batch:" + sig_of(d, fmt, c).split(":", 2)[-1], f"{i!r} in a store of {len(objs)} objects: {d[:200]}", case, d)
+    return None
+
+
+def batches(seed: int, n: int, tier: str, falsy_bias: float):
+    """the directed store, then the generated identifiables in stores of four"""
+    from basyx.aas import model
+    yield {"seed": seed, "batch": "directed"}, directed_store()
+    group, first = [], None
+    for i, obj, _ in gen_objects(seed, n, tier, falsy_bias):
+        if isinstance(obj, model.Identifiable) and i >= 0 and all(obj.id != o.id for o in group):
+            first = i if not group else first
+            group.append(obj)
+            if len(group) == 4:
+                yield {"seed": seed, "batch": [first, i]}, group
+                group = []
 
 
 def search(ctx: C.Ctx, disagreements, broken) -> List[C.Failing]:
@@ -456,7 +514,16 @@ def search(ctx: C.Ctx, disagreements, broken) -> List[C.Failing]:
     return oracle(ctx, C.Coverage(), falsy_bias=0.5, n=3000, seed=ctx.seed + 104729)
 
 
+def replay_batch(case, fmt: str) -> Optional[C.Failing]:
+    for c, group in batches(case["seed"], 400, case.get("tier", "quick"), 0.35):
+        if c["batch"] == case["batch"]:
+            return check_batch(group, c, fmt)
+    return None
+
+
 def replay(case) -> Optional[C.Failing]:
+    if "batch" in case:
+        return replay_batch(case, "json")
     obj = regen(case)
     for how in CARRIERS:
         f = check_object(obj, case, how)
